@@ -110,7 +110,8 @@ CLAIMS = {
         "distance_squared/reflected/cross/determine_side/areas/homogenised recomputed; magnitude, distance and the four normalisation forms validated as m^2=|v|^2, m>=0, m*unit=v, |unit|=1 (try_normalized "
         "refusing only the zero vector, float threshold classes); refraction incl. total internal reflection and the critical angle; face_forward for negative/zero/positive dot; angle_between as a "
         "token angle in [0,pi] with the right cosine, and in degrees on right/straight/zero angles; Vec3 slerp hitting its ends and interpolating lengths linearly (also clamped)."
-        ' angle_between is additionally checked on f32/f64 for multiples of 45 degrees between vectors that are both very short, ordinary or very long (independent of length).'),
+        ' angle_between is additionally checked on f32/f64 for multiples of 45 degrees between vectors that are both very short, ordinary or very long (independent of length).'
+        ' SYMBOLIC LANE (added): dot, squared magnitude and distance, reflection about an arbitrary vector (Vec2/3/4/8/16, Extent2/3), cross product and determine_side are also executed on free symbols and compared by TLC as polynomials in the free commutative ring (every input at once).'),
   design="§6 C11, §12"),
  "C12": dict(
   technique="TLA+ spec (VekLerp, VekOps!LerpInt) with its laws model-checked by TLC; TLC-emitted integer tables replayed into the real code (spec->code); generic/quaternion/Transform/Transition interpolation recorded from the code and validated by TLC (code->spec); symbolic lane: the same code run on free symbols, the returned polynomials compared by TLC in the free commutative ring VekPoly (all inputs at once)",
